@@ -42,7 +42,16 @@ def run(ctx):
     b = ctx.bin
     runs = [x for x in b.real_bodies() if any(cname(c.node).endswith("::into_struct") for c in x.calls())]
     if len(runs) == 1:
-        rb = mir.inline_calls(b, runs[0], lambda cb, t: not cb.name.startswith("<") and "::<impl " not in cb.name and cb.kind in ("fn", "assoc_fn") and cb.name != "main")
+        cg = b.callgraph()
+        top = runs[0]
+        for _ in range(4):
+            if top.name in cg.get("main", ()):
+                break
+            callers = [n for n, cs_ in cg.items() if top.name in cs_ and n != top.name and not n.startswith("<")]
+            if len(callers) != 1:
+                break
+            top = b.bodies[callers[0]]
+        rb = mir.inline_calls(b, top, lambda cb, t: not cb.name.startswith("<") and "::<impl " not in cb.name and cb.kind in ("fn", "assoc_fn") and cb.name != "main")
         rend = [c for c in rb.calls() if cname(c.node).endswith("Element::to_serde_struct")]
         if len(rend) == 1:
             c12.check_options(r, rb, rend[0], "")
